@@ -179,6 +179,24 @@ func (s *State) assume(t Term) {
 	if t.Sort != SBool {
 		panic("assume non-bool " + t.S)
 	}
+	// split top-level conjunctions: keeps quantifier-free conjuncts usable
+	// by the feasibility checks and vacuity covers, and queries readable
+	if strings.HasPrefix(t.S, "(and ") {
+		for _, a := range splitTopArgs(t.S[len("(and ") : len(t.S)-1]) {
+			s.assume(Term{a, SBool})
+		}
+		return
+	}
+	// (=> a (and b c)) becomes (=> a b), (=> a c) for the same reason
+	if strings.HasPrefix(t.S, "(=> ") {
+		args := splitTopArgs(t.S[len("(=> ") : len(t.S)-1])
+		if len(args) == 2 && strings.HasPrefix(args[1], "(and ") {
+			for _, c := range splitTopArgs(args[1][len("(and ") : len(args[1])-1]) {
+				s.assume(Term{"(=> " + args[0] + " " + c + ")", SBool})
+			}
+			return
+		}
+	}
 	s.Asserts = append(s.Asserts, t)
 }
 
@@ -243,7 +261,36 @@ func (s *State) heapCur(name string, sort Sort) Term {
 	}
 	t := s.declare(name, sort)
 	s.Heap[name] = t
+	s.closedHeapAxiom(t)
 	return t
+}
+
+// closedHeapAxiom: the initial heap holds no reference to an object that
+// has not been allocated yet (every reference stored in it is below the
+// entry allocation frontier A0). Part of A-SLICE/heap well-formedness.
+func (s *State) closedHeapAxiom(h Term) {
+	_, v1 := splitArraySort(h.Sort)
+	refOf := func(x string, so Sort) string {
+		switch so {
+		case SRef:
+			return x
+		case SIface:
+			return "(iref " + x + ")"
+		case SSlice:
+			return "(sbase " + x + ")"
+		}
+		return ""
+	}
+	if r := refOf("(select "+h.S+" r!)", v1); r != "" {
+		s.Asserts = append(s.Asserts, Term{fmt.Sprintf("(forall ((r! Int)) (! (=> (< r! A0) (< %s A0)) :pattern ((select %s r!))))", r, h.S), SBool})
+		return
+	}
+	if strings.HasPrefix(string(v1), "(Array ") {
+		k2, v2 := splitArraySort(v1)
+		if r := refOf("(select (select "+h.S+" r!) k!)", v2); r != "" {
+			s.Asserts = append(s.Asserts, Term{fmt.Sprintf("(forall ((r! Int) (k! %s)) (! (=> (< r! A0) (< %s A0)) :pattern ((select (select %s r!) k!))))", k2, r, h.S), SBool})
+		}
+	}
 }
 
 func (s *State) heapInit(name string, sort Sort) Term {
